@@ -38,9 +38,9 @@ def setup(ctx):
     import aw_datastore.migration as mig
     orig = mig.peewee_v2_to_sqlite_v1
 
-    def counted(datastore):
+    def counted(*args, **kwargs):      # whatever signature the migration has, it is only counted
         _count[0] += 1
-        return orig(datastore)
+        return orig(*args, **kwargs)
 
     mig.peewee_v2_to_sqlite_v1 = counted
 
